@@ -121,6 +121,35 @@ theorem lsq9_consistent (rws : List (List ℝ × ℝ)) (z x : List ℝ) (hne : r
   rw [h1, h2, sum9 _ z (hlen _ (List.getElem_mem hi)) hz]
   exact hcons _ (List.getElem_mem hi)
 
+/-- the shared core of the exactness theorems: if every row the C builds is satisfied by a 9-vector `z`
+    and `ref_recon_kexact_with_aux` returns `REF_SUCCESS`, its outputs are the entries of `z` -/
+theorem kexactWithAux_consistent (center : Int) (cloud : List (Item ℝ)) (twod : Bool) (c : Item ℝ)
+    (z : List ℝ) (gr : V3 ℝ) (he : M6 ℝ) (hz : z.length = 9)
+    (hfind : cloud.find? (fun it => it.g == center) = some c)
+    (hrows : ∀ p ∈ rowsOf c cloud twod, p.1.length = 9 ∧ ipl p.1 z = p.2)
+    (h : kexactWithAux center cloud twod = (KSt.ok, gr, he)) :
+    gr = ⟨z.getD 6 0, z.getD 7 0, z.getD 8 0⟩ ∧
+    he = ⟨z.getD 0 0, z.getD 1 0, z.getD 2 0, z.getD 3 0, z.getD 4 0, z.getD 5 0⟩ := by
+  unfold kexactWithAux at h
+  rw [hfind] at h
+  dsimp only at h
+  split at h
+  · simp at h
+  · rename_i hlen9
+    have hne : rowsOf c cloud twod ≠ [] := by
+      intro h0; rw [h0] at hlen9; simp at hlen9
+    split at h
+    · rename_i x hl
+      have hx := lsq9_consistent _ z x hne hz (fun p hp => (hrows p hp).1)
+        (fun p hp => (hrows p hp).2) hl
+      simp only [Prod.mk.injEq, true_and] at h
+      obtain ⟨rfl, rfl⟩ := h
+      subst hx
+      simp
+    · rename_i st x hst hl
+      simp only [Prod.mk.injEq] at h
+      exact absurd h.1 hst
+
 /-- `ref_recon_kexact_with_aux`, 3-D: on any cloud whose entries carry a quadratic field, a `REF_SUCCESS`
     return delivers the exact gradient at the centre and the exact Hessian -/
 theorem kexact_quadratic_exact (a : ℝ) (g : V3 ℝ) (H : M6 ℝ) (center : Int) (cloud : List (Item ℝ))
@@ -130,29 +159,163 @@ theorem kexact_quadratic_exact (a : ℝ) (g : V3 ℝ) (H : M6 ℝ) (center : Int
     (h : kexactWithAux center cloud false = (KSt.ok, gr, he)) :
     gr = gradAt g H c.x c.y c.z ∧ he = H := by
   have hcmem : c ∈ cloud := List.mem_of_find?_eq_some hfind
-  unfold kexactWithAux at h
-  rw [hfind] at h
-  dsimp only at h
-  split at h
-  · simp at h
-  · rename_i hlen9
-    have hne : rowsOf c cloud false ≠ [] := by
-      intro h0; rw [h0] at hlen9; simp at hlen9
-    have hrows : ∀ p ∈ rowsOf c cloud false, p.1.length = 9 ∧ ipl p.1 (coef g H c.x c.y c.z) = p.2 := by
-      intro p hp
-      simp only [rowsOf, Bool.false_eq_true, if_false, List.nil_append, List.mem_map, List.mem_filter] at hp
-      obtain ⟨it, ⟨hit, _⟩, rfl⟩ := hp
-      exact ⟨rfl, kexact_rows_quadratic a g H c it (hfield c hcmem) (hfield it hit)⟩
+  have hrows : ∀ p ∈ rowsOf c cloud false, p.1.length = 9 ∧ ipl p.1 (coef g H c.x c.y c.z) = p.2 := by
+    intro p hp
+    simp only [rowsOf, Bool.false_eq_true, if_false, List.nil_append, List.mem_map, List.mem_filter] at hp
+    obtain ⟨it, ⟨hit, _⟩, rfl⟩ := hp
+    exact ⟨rfl, kexact_rows_quadratic a g H c it (hfield c hcmem) (hfield it hit)⟩
+  obtain ⟨h1, h2⟩ := kexactWithAux_consistent center cloud false c _ gr he rfl hfind hrows h
+  rw [h1, h2]
+  simp [coef]
+
+/-- `ref_recon_kexact_with_aux`, 2-D (four phantom rows): for a field quadratic in x, y on a planar cloud the
+    in-plane entries are exact (the z entries are overwritten with zero by the caller, see `kexactNode`) -/
+theorem kexact_quadratic_exact_twod (a : ℝ) (g : V3 ℝ) (H : M6 ℝ) (center : Int) (cloud : List (Item ℝ))
+    (c : Item ℝ) (gr : V3 ℝ) (he : M6 ℝ)
+    (hg : g.z = 0) (h2 : H.m2 = 0) (h4 : H.m4 = 0) (h5 : H.m5 = 0)
+    (hfield : ∀ it ∈ cloud, OnField a g H it)
+    (hfind : cloud.find? (fun it => it.g == center) = some c)
+    (hplane : ∀ it ∈ cloud, it.z = c.z)
+    (h : kexactWithAux center cloud true = (KSt.ok, gr, he)) :
+    gr.x = (gradAt g H c.x c.y c.z).x ∧ gr.y = (gradAt g H c.x c.y c.z).y ∧
+    he.m0 = H.m0 ∧ he.m1 = H.m1 ∧ he.m3 = H.m3 := by
+  have hcmem : c ∈ cloud := List.mem_of_find?_eq_some hfind
+  have hrows : ∀ p ∈ rowsOf c cloud true, p.1.length = 9 ∧ ipl p.1 (coefTwod g H c.x c.y c.z) = p.2 := by
+    intro p hp
+    simp only [rowsOf, if_true, List.mem_append, List.mem_map, List.mem_filter] at hp
+    rcases hp with hp | ⟨it, ⟨hit, _⟩, rfl⟩
+    · refine ⟨?_, (kexact_rows_quadratic_twod a g H c c hg h2 h4 h5 (hfield c hcmem) (hfield c hcmem) rfl).2 p hp⟩
+      simp only [twodRows, List.mem_cons, List.not_mem_nil, or_false] at hp
+      rcases hp with rfl | rfl | rfl | rfl <;> rfl
+    · exact ⟨rfl, (kexact_rows_quadratic_twod a g H c it hg h2 h4 h5 (hfield c hcmem) (hfield it hit)
+        (hplane it hit)).1⟩
+  obtain ⟨h1, h2'⟩ := kexactWithAux_consistent center cloud true c _ gr he rfl hfind hrows h
+  rw [h1, h2']
+  simp [coefTwod]
+
+/-! ### through the cloud-growth loop -/
+
+theorem store_mem {it x : Item ℝ} : ∀ {c : List (Item ℝ)}, x ∈ store c it → x ∈ c ∨ x = it
+  | [], h => by simp [store] at h; exact Or.inr h
+  | hd :: t, h => by
+    unfold store at h
     split at h
-    · rename_i x hl
-      have hx := lsq9_consistent _ (coef g H c.x c.y c.z) x hne rfl (fun p hp => (hrows p hp).1)
-        (fun p hp => (hrows p hp).2) hl
-      simp only [Prod.mk.injEq, true_and] at h
-      obtain ⟨rfl, rfl⟩ := h
-      subst hx
-      simp [coef]
-    · rename_i st x hst hl
-      simp only [Prod.mk.injEq] at h
-      exact absurd h.1 hst
+    · rcases List.mem_cons.mp h with rfl | h
+      · exact Or.inr rfl
+      · exact Or.inl (by simp [h])
+    · split at h
+      · rcases List.mem_cons.mp h with rfl | h
+        · exact Or.inr rfl
+        · exact Or.inl h
+      · rcases List.mem_cons.mp h with rfl | h
+        · exact Or.inl (by simp)
+        · rcases store_mem h with h | h
+          · exact Or.inl (by simp [h])
+          · exact Or.inr h
+
+theorem storeAll_all {P : Item ℝ → Prop} : ∀ (its c : List (Item ℝ)), (∀ x ∈ c, P x) → (∀ x ∈ its, P x) →
+    ∀ x ∈ storeAll c its, P x
+  | [], c, hc, _, x, hx => hc x (by simpa [storeAll] using hx)
+  | it :: its, c, hc, hi, x, hx => by
+    have hstep : ∀ y ∈ store c it, P y := fun y hy => by
+      rcases store_mem hy with hy | rfl
+      · exact hc y hy
+      · exact hi _ (by simp)
+    exact storeAll_all its (store c it) hstep (fun y hy => hi y (by simp [hy])) x
+      (by simpa [storeAll] using hx)
+
+theorem grow_all {P : Item ℝ → Prop} (layerOf : Int → List (Item ℝ)) (hl : ∀ k, ∀ x ∈ layerOf k, P x)
+    (c : List (Item ℝ)) (hc : ∀ x ∈ c, P x) : ∀ x ∈ grow layerOf c, P x := by
+  unfold grow
+  have key : ∀ (ps acc : List (Item ℝ)), (∀ x ∈ acc, P x) →
+      ∀ x ∈ ps.foldl (fun acc p => storeAll acc (layerOf p.g)) acc, P x := by
+    intro ps
+    induction ps with
+    | nil => intro acc hacc; simpa using hacc
+    | cons p ps ih =>
+      intro acc hacc
+      simp only [List.foldl_cons]
+      exact ih _ (storeAll_all _ acc hacc (hl p.g))
+  exact key c c hc
+
+theorem kexactWithAux_zero_unless_ok (center : Int) (cloud : List (Item ℝ)) (twod : Bool)
+    (h : (kexactWithAux center cloud twod).1 ≠ KSt.ok) :
+    (kexactWithAux center cloud twod).2 = (V3.zero, zero6) := by
+  unfold kexactWithAux at h ⊢
+  cases hf : cloud.find? (fun it => it.g == center) with
+  | none => rfl
+  | some c =>
+    rw [hf] at h
+    dsimp only at h ⊢
+    by_cases hnl : (rowsOf c cloud twod).length < 9
+    · rw [if_pos hnl]
+    · rw [if_neg hnl] at h ⊢
+      split
+      · rename_i x hl; rw [hl] at h; exact absurd rfl h
+      · rfl
+
+/-- `ref_recon_kexact_gradient_hessian` at one vertex, 3-D: whatever number of layers it takes, the result is
+    either the exact gradient/Hessian of the quadratic field at (an entry carrying the id of) the vertex, or —
+    when no layer up to 8 gave an acceptable system — the zeros the C silently leaves -/
+theorem kexactNode_quadratic (a : ℝ) (g : V3 ℝ) (H : M6 ℝ) (layerOf : Int → List (Item ℝ)) (center : Int)
+    (hl : ∀ k, ∀ x ∈ layerOf k, OnField a g H x) :
+    (kexactNode layerOf center false = (V3.zero, zero6)) ∨
+    ∃ c : Item ℝ, c.g = center ∧ OnField a g H c ∧
+      kexactNode layerOf center false = (gradAt g H c.x c.y c.z, H) := by
+  have key : ∀ (fuel : ℕ) (cloud : List (Item ℝ)), (∀ x ∈ cloud, OnField a g H x) →
+      (layerLoop layerOf center false fuel cloud = (V3.zero, zero6)) ∨
+      ∃ c : Item ℝ, c.g = center ∧ OnField a g H c ∧
+        layerLoop layerOf center false fuel cloud = (gradAt g H c.x c.y c.z, H) := by
+    intro fuel
+    induction fuel with
+    | zero => intro cloud _; exact Or.inl rfl
+    | succ f ih =>
+      intro cloud hc
+      have hg := grow_all layerOf hl cloud hc
+      unfold layerLoop
+      dsimp only
+      cases hk : kexactWithAux center (grow layerOf cloud) false with
+      | mk st gh =>
+        obtain ⟨gr, he⟩ := gh
+        cases st with
+        | ok =>
+          dsimp only
+          cases hf : (grow layerOf cloud).find? (fun it => it.g == center) with
+          | none =>
+            unfold kexactWithAux at hk; rw [hf] at hk; simp at hk
+          | some c =>
+            obtain ⟨h1, h2⟩ := kexact_quadratic_exact a g H center _ c gr he hg hf hk
+            refine Or.inr ⟨c, ?_, hg c (List.mem_of_find?_eq_some hf), by rw [h1, h2]⟩
+            have := List.find?_some hf
+            simpa using this
+        | notFound =>
+          dsimp only
+          have := kexactWithAux_zero_unless_ok center (grow layerOf cloud) false (by rw [hk]; simp)
+          rw [hk] at this
+          exact Or.inl this
+        | divZero => exact ih _ hg
+        | illConditioned => exact ih _ hg
+        | failure => exact ih _ hg
+        | invalid => exact ih _ hg
+  unfold kexactNode
+  rcases key 7 (layerOf center) (hl center) with h | ⟨c, h1, h2, h3⟩
+  · left; rw [h]; rfl
+  · right; exact ⟨c, h1, h2, by rw [h3]; rfl⟩
+
+/-- numbering independence on quadratic fields: two clouds (any ids, any order, any extent) carrying the same
+    quadratic field, centres at the same point — if both solves succeed the answers coincide -/
+theorem kexact_numbering_independent_quadratic (a : ℝ) (g : V3 ℝ) (H : M6 ℝ)
+    (center center' : Int) (cloud cloud' : List (Item ℝ)) (c c' : Item ℝ) (gr gr' : V3 ℝ) (he he' : M6 ℝ)
+    (hfield : ∀ it ∈ cloud, OnField a g H it) (hfield' : ∀ it ∈ cloud', OnField a g H it)
+    (hfind : cloud.find? (fun it => it.g == center) = some c)
+    (hfind' : cloud'.find? (fun it => it.g == center') = some c')
+    (hpos : c.x = c'.x ∧ c.y = c'.y ∧ c.z = c'.z)
+    (h : kexactWithAux center cloud false = (KSt.ok, gr, he))
+    (h' : kexactWithAux center' cloud' false = (KSt.ok, gr', he')) :
+    gr = gr' ∧ he = he' := by
+  obtain ⟨h1, h2⟩ := kexact_quadratic_exact a g H center cloud c gr he hfield hfind h
+  obtain ⟨h1', h2'⟩ := kexact_quadratic_exact a g H center' cloud' c' gr' he' hfield' hfind' h'
+  rw [h1, h2, h1', h2', hpos.1, hpos.2.1, hpos.2.2]
+  exact ⟨rfl, rfl⟩
 
 end Refine.Props.C19Kexact
